@@ -41,6 +41,9 @@ type Case struct {
 	Route *Route   `json:"route,omitempty"`
 	Rows  []Metric `json:"rows,omitempty"` // batch / pool stage
 	Prev  []Metric `json:"prev,omitempty"` // pool stage: the request before
+	// pool stage: the database of the request before (nil = the same database). All databases of a broker share the
+	// pool of batches; with another interval type the previous request resolved families of another calendar unit.
+	PrevRoute *Route `json:"prev_route,omitempty"`
 }
 
 var (
@@ -261,6 +264,9 @@ func markerOf(s *Stored) int {
 func routeOnce(c *Case, rows []Metric, check bool, scen string) (batch *metric.BrokerBatchRows, ok bool) {
 	ctx := &c.Ctx
 	r := *c.Route
+	if !check && c.PrevRoute != nil {
+		r = *c.PrevRoute // the request before, sent to another database
+	}
 	site := "replica.databaseChannel.Write"
 	rows = mark(rows)
 	if ctx.Enc == "flat" {
@@ -841,18 +847,26 @@ func forEachPoolCase(thorough bool, f func(c *Case) bool) {
 	for _, enc := range batchEncs {
 		for _, sh := range shardCounts {
 			for _, w := range windows[1:] {
-				r := Route{Shards: sh, Behind: w[0], Ahead: w[1], Interval: "10s"}
-				ok := true
-				seqs(prevSym, 2, func(prev []Metric) bool {
-					seqs(curSym, 3, func(rows []Metric) bool {
-						r2 := r
-						ok = f(&Case{Stage: "pool", Ctx: Ctx{Enc: enc, ReqNS: "ns1", Limits: limDefault, Precision: "ms"}, Route: &r2, Rows: rows, Prev: prev})
+				// (interval of the request before, interval of this request): same database, then databases whose
+				// families are of different calendar units (10s: hour, 5m: day, 1h: month), both directions
+				for _, ivs := range [][2]string{{"", "10s"}, {"5m", "10s"}, {"10s", "5m"}, {"1h", "10s"}, {"10s", "1h"}} {
+					r := Route{Shards: sh, Behind: w[0], Ahead: w[1], Interval: ivs[1]}
+					var pr *Route
+					if ivs[0] != "" {
+						pr = &Route{Shards: sh, Behind: w[0], Ahead: w[1], Interval: ivs[0]}
+					}
+					ok := true
+					seqs(prevSym, 2, func(prev []Metric) bool {
+						seqs(curSym, 3, func(rows []Metric) bool {
+							r2 := r
+							ok = f(&Case{Stage: "pool", Ctx: Ctx{Enc: enc, ReqNS: "ns1", Limits: limDefault, Precision: "ms"}, Route: &r2, Rows: rows, Prev: prev, PrevRoute: pr})
+							return ok
+						})
 						return ok
 					})
-					return ok
-				})
-				if !ok {
-					return
+					if !ok {
+						return
+					}
 				}
 			}
 		}
@@ -990,14 +1004,22 @@ func main() {
 			return true
 		}
 	}
-	forEachRowCase(f.Thorough(), each("row"))
-	if !stop {
+	// C16_STAGES restricts the run to some stages (the batch stage also serves as part route of C12: rows of one
+	// request spread over shards and families by series/metric/row_broker.go)
+	want := func(stage string) bool {
+		only := os.Getenv("C16_STAGES")
+		return only == "" || strings.Contains(","+only+",", ","+stage+",")
+	}
+	if want("row") {
+		forEachRowCase(f.Thorough(), each("row"))
+	}
+	if !stop && want("prec") {
 		forEachPrecCase(each("prec"))
 	}
-	if !stop {
+	if !stop && want("batch") {
 		forEachBatchCase(f.Thorough(), each("batch"))
 	}
-	if !stop {
+	if !stop && want("pool") {
 		forEachPoolCase(f.Thorough(), each("pool"))
 	}
 	rep.Extra["case_index_space"] = idx
